@@ -205,6 +205,11 @@ func checkC10(env *Env) []Violation {
 			if isTest {
 				if lv == live {
 					addSnap(mv, r.Task, r.Op.I)
+				} else if lv == maybe {
+					// the handle's scope was derived while its parent was being closed:
+					// it is either the live scope or the inert one, the statement does
+					// not say which - no exact expectation for this identity
+					ambiguous[idKey(mv.FullName, mv.Tags)] = true
 				}
 				continue
 			}
@@ -247,6 +252,9 @@ func checkC10(env *Env) []Violation {
 			lv := ci.liveness(mv.scope)
 			if mv.kind == "timer" {
 				if isTest {
+					if lv == maybe {
+						ambiguous[idKey(mv.FullName, mv.Tags)] = true
+					}
 					if lv == live {
 						// value checked against the snapshot below through bounds
 						addSnap(mv, r.Task, -7777777) // placeholder replaced by range check
